@@ -152,7 +152,7 @@ CLAIMS = {
     "C19": ("exploration", "Bounded stand-in for the property as stated: the coherence invariant (tree shape, id map = reachable nodes with "
             "ids, path<->id inverse) is an inductive predicate over a recursive structure that pyvc's first-order obligations cannot "
             "express; all sequences of <= 2 (thorough: 3) cache calls plus seeded random sequences, both case modes, invariant checked "
-            "after every call. One known finding (id of an ancestor/descendant re-used). In addition eight deductive lemmas on the "
+            "after every call. One known finding (id of an ancestor/descendant re-used). In addition ten deductive lemmas on the "
             "non-recursive id-map maintenance, over an id map of arbitrary content (contracts/cache_laws.py; discharged obligations, "
             "reported separately from the bounded part and not raising the level): _set_oid evicts the previous holder of an id "
             "first and then binds an id-less node in place / replaces a node that carries another id; _delete of a file node unlinks "
@@ -161,9 +161,12 @@ CLAIMS = {
             "that node, before the replacement is made), makes a missing node without removing anything, keeps a node of the requested "
             "type and assigns the id exactly when one was passed; set_oid labels the node found at the path through _set_oid or makes one "
             "node of the given type there; get_path is the full path of exactly the node the id map binds, get_oid the id of the node the "
-            "path lookup resolves, neither changes a binding.",
+            "path lookup resolves, neither changes a binding; _rename refuses the root before touching anything and otherwise detaches the "
+            "node, deletes whatever sits at the new path and inserts the same node there, in that order; set_metadata replaces the "
+            "metadata of exactly the node resolved.",
             "Exhaustive only up to the stated sequence length. Lemmas: delete / __make_node / Node.full_path (and, in the _update lemma, "
-            "_get_node / _delete / _set_oid / set_metadata) are arbitrary callees; "
+            "_get_node / _delete / _set_oid / set_metadata; in the _rename lemma _get_node / _delete / delete / __insert_node / _check) "
+            "are arbitrary callees; "
             "assumed representation facts: a node found under key k carries id k, weak parent references are alive; the recursive "
             "operations (delete of a folder, rename, __insert_node, _walk of a folder) are not under contract."),
     "C20": ("proof", "Lemma-level proof. The smart pre-sync gate finishes an unrequested remote-only file without any transfer and lets "
